@@ -104,7 +104,7 @@ def size_ok(o):
 
 OPS = ["new", "new", "svd", "add", "sub", "mul", "kron", "matmul", "transpose", "scalar", "clone", "to_ttm", "round", "sum", "getitem",
        "permute", "reshape", "cat", "pad", "diag", "mprod", "set_core", "reduce_dims", "dmrg", "hadamard", "amen_mm", "amen_mv", "solve", "divide",
-       "interp", "qtt", "dot", "norm", "factory", "saveload", "set_core_neg", "ctor_from_N", "ctor_from_N", "scribble", "scribble"]
+       "interp", "qtt", "dot", "norm", "factory", "saveload", "set_core_neg", "ctor_from_N", "ctor_from_N", "scribble", "scribble", "ctor_bad"]
 
 def do_step(w, op):
     """performs one call; returns the log entry (name) or None when the op is not applicable"""
@@ -170,8 +170,15 @@ def do_step(w, op):
     if op == "scalar":
         i = w.pick()
         if i is None: return None
-        k = rng.choice(["*2", "2*", "-", "/2", "*0", "+", "0-", "-0", "+0", "0+", "1-"])
+        k = rng.choice(["*2", "2*", "-", "/2", "*0", "+", "0-", "-0", "+0", "0+", "1-", "/t0", "/t1", "*t0", "*t1", "+t0", "-t1", "/np", "*np"])
         x = P[i]
+        if k in ("/t0", "/t1", "*t0", "*t1", "+t0", "-t1", "/np", "*np"):      # scalars given as 0-d / 1-element torch tensors and numpy scalars
+            t0 = torch.tensor(2.0, dtype=x.cores[0].dtype); t1 = torch.tensor([2.0], dtype=x.cores[0].dtype); npv = np.float64(2.0)
+            o = {"/t0": lambda: x / t0, "/t1": lambda: x / t1, "*t0": lambda: x * t0, "*t1": lambda: x * t1, "+t0": lambda: x + t0, "-t1": lambda: x - t1,
+                 "/np": lambda: x / npv, "*np": lambda: x * npv}[k]()
+            if k in ("+t0", "-t1"): w.add(o, "KNew %s" % shlist_coq(o))
+            else: w.add(o, "KScalar %d" % i)
+            return "scalar%s(%d)" % (k, i), None
         if k in ("0-", "-0", "+0", "0+", "1-"):
             o = (0 - x) if k == "0-" else ((x - 0) if k == "-0" else ((x + 0) if k == "+0" else ((0 + x) if k == "0+" else (1 - x))))
             w.add(o, "KNew %s" % shlist_coq(o)); return "scalar%s(%d)" % (k, i), None
@@ -279,6 +286,20 @@ def do_step(w, op):
         x = P[i]
         o = torchtt.TT(x.full(), x.N, eps=1e-12)
         w.add(o, "KNew %s" % shlist_coq(o)); return "TT(full(%d), N of %d)" % (i, i), None
+    if op == "ctor_bad":
+        # malformed core lists (mixed 3-d / 4-d cores, broken chaining, boundary rank != 1) through TT(), rank1TT and random(): each must raise;
+        # whatever is returned instead joins the pool and is held to the same well-formedness as every other object
+        mk = lambda shp: torch.ones(shp, dtype=dt)
+        kind = rng.choice(["mixed", "mixed-rank1", "mixed-random", "chain", "boundary"])
+        try:
+            if kind == "mixed": o = torchtt.TT([mk((1, 2, 2)), mk((2, 3, 2, 2)), mk((2, 2, 1))])
+            elif kind == "mixed-rank1": o = torchtt.rank1TT([mk((3,)), mk((2, 2)), mk((2,))])
+            elif kind == "mixed-random": o = torchtt.random([4, (2, 3), 2], [1, 2, 2, 1], dtype=dt)
+            elif kind == "chain": o = torchtt.TT([mk((1, 2, 2)), mk((3, 2, 1))])
+            else: o = torchtt.TT([mk((2, 2, 2)), mk((2, 2, 1))])
+        except Exception:
+            return "ctor_bad(%s) raised" % kind, None
+        w.add(o, "KNew %s" % shlist_coq(o)); return "ctor_bad(%s) RETURNED an object" % kind, None
     if op == "scribble":
         # the lists handed out by N / M / R / shape are the caller's: writing into them must not reach the object
         i = w.pick()
